@@ -149,8 +149,14 @@ GHOSTS = {}
 GHOST_AXIOMS = {}      # ghost name -> [(label, closed spec text, module)] assumed whenever the ghost is mentioned (E-* items)
 
 
-def axiom(ghostname, label, text, modname='saml2_tophat.sigver'):
+REVEAL = {}     # axiom label -> short names of the functions whose obligations may use it (opaque elsewhere)
+
+
+def axiom(ghostname, label, text, modname='saml2_tophat.sigver', reveal_in=None):
+    """reveal_in: the definition is opaque except in the proofs of the listed functions (keeps unrelated queries small)"""
     GHOST_AXIOMS.setdefault(ghostname, []).append((label, text, modname))
+    if reveal_in:
+        REVEAL[label] = list(reveal_in)
 
 _SORTS = {'Val': Val, 'Int': IntS, 'Bool': BoolS, 'Str': StrS, 'Seq': SeqVal, 'KeySet': KeySet, 'KeyMap': KeyMap}
 
